@@ -207,6 +207,14 @@ def param(draw):
 def random_specs(draw):
     d = draw(st.integers(1, 6))
     ps = [draw(param()) for _ in range(d)]
+    if draw(st.integers(0, 9)) == 0:
+        # a very large (but cheap to build) space: 6-12 parameters with 2000-60000 points each - its size exceeds 2^63
+        d = draw(st.integers(6, 12))
+        ps = []
+        for _ in range(d):
+            lo, _, p = draw(param())
+            m = draw(st.integers(2000, 60000))
+            ps.append((lo, lo + m * p, p))
     bounds = [[a for a, _, _ in ps], [b for _, b, _ in ps]]
     prec = [c for _, _, c in ps]
     defect = draw(st.sampled_from(["none", "none", "none", "equal", "inverted", "zero", "toolarge", "preclen", "boundlen",
